@@ -3,6 +3,7 @@ from ..harness import *
 from ..player import *
 from ..subst import *
 from .c04 import BINOPS
+from ..wlayer import PipelineOb
 
 OUTER = {
     'f64': ['Add', 'Subtract', 'Multiply', 'Divide', 'Modulo', 'Pow', 'Negative', 'Abs', 'Floor', 'Round', 'Sqrt', 'Sin', 'Sign', 'Atan2', 'Log', 'Root'],
@@ -10,7 +11,10 @@ OUTER = {
     'number': ['Add', 'Subtract', 'Multiply', 'Divide', 'Negative', 'Abs', 'Floor', 'Sqrt', 'Sin'],
     'complex': ['Add', 'Multiply', 'Negative', 'Sin'],
 }
-INNER = {'f64': ['Add', 'Divide', 'Negative', 'Sqrt'], 'i64': ['Add', 'Multiply', 'Divide'], 'number': ['Add', 'Divide'], 'complex': ['Add', 'Multiply']}
+# inner nodes: quick = the first QUICK_INNER[ev] of the list
+INNER = {'f64': ['Add', 'Multiply', 'Divide', 'Negative', 'Subtract', 'Sqrt', 'Abs', 'Floor'], 'i64': ['Add', 'Multiply', 'Negative', 'Divide', 'Subtract', 'Abs'],
+         'number': ['Add', 'Multiply', 'Divide', 'Negative', 'Subtract'], 'complex': ['Add', 'Multiply', 'Negative']}
+QUICK_INNER = {'f64': 4, 'i64': 3, 'number': 3, 'complex': 2}
 
 
 def obligations(ctx):
@@ -24,9 +28,13 @@ def obligations(ctx):
             for o in outers:
                 ar = len(prog.enum_fields[key][o])
                 for pos in range(ar):
-                    inners = INNER[ev] if ctx.tier == 'thorough' else INNER[ev][:2]
+                    inners = INNER[ev] if ctx.tier == 'thorough' else INNER[ev][:QUICK_INNER[ev]]
                     for i in inners:
                         obs.append(CompositionOb('C20', ev, o, pos, i, oc=oc))
+        # the public functions hand the evaluator's value to the caller unchanged (so the value reported for E alone is the value an enclosing operation sees)
+        for ev in lx.EVALS:
+            for k in (0, 1, 2):
+                obs.append(PipelineOb('C20', ev, k, oc=oc))
         # the parser side: a bracketed group in operand position is the subtree of its content (and `@` a leaf) - P layer vs the reference
         for ev in lx.EVALS:
             OP = BINOPS
@@ -39,7 +47,7 @@ def obligations(ctx):
 def run(ctx):
     results = run_obligations(ctx, obligations(ctx))
     bounds = dict(layer='E: for every listed parent node, every child position and inner node: eval(Outer(.., Inner(x..), ..)) is compared with eval(Outer(.., Number(v), ..)) with v replaced by the value of Inner(x..), over all operand values '
-                        '(three explorations of ast::eval from MIR per obligation, results related by substitution and decided by z3); P: a bracketed group in operand / argument position is the subtree of its content',
+                        '(three explorations of ast::eval from MIR per obligation, results related by substitution and decided by z3); P: a bracketed group in operand / argument position is the subtree of its content; W: mod.rs of every evaluator with the three stages stubbed returns exactly the evaluator\'s value',
                   parents=OUTER, configurations=['overflow-checks=on'] + (['overflow-checks=off'] if ctx.tier == 'thorough' else []))
     outside = ['eval_decimal (abstract arithmetic) and parent nodes with loops (x!, ilog, w, aggregates) are not in the E part', 'contexts deeper than one parent node: by induction on the tree (the same recursive call evaluates every child)',
                'eval_number: the substituted value is a Float leaf; Integer-valued subexpressions are the Integer arms of C09']
